@@ -148,7 +148,9 @@ class ModelFS:
         for q in list(self.files) + list(self.dirs):
             if q.startswith(pre) and q != p:
                 names.add(q[len(pre):].split("/")[0])
-        return sorted(names)
+        # the order of a directory listing is unspecified: the model hands the names out in reverse lexicographic order,
+        # so code that relies on a sorted listing without sorting is exposed
+        return sorted(names, reverse=True)
 
     def open(self, p, mode="r", **kw):
         self._tick("open:" + mode, p)
